@@ -29,10 +29,17 @@ import (
 
 const c22Tick = 250 * time.Millisecond
 
-type c22Counter struct{ n int64 }
+// offline: the peer goes away after the first copy went out - every later copy is an attempt that fails (it is still
+// counted: an attempt after the swap moved on is a retransmission that did not stop).
+type c22Counter struct {
+	n       int64
+	offline bool
+}
 
 func (c *c22Counter) SendMessage(peerId string, message []byte, messageType int) error {
-	atomic.AddInt64(&c.n, 1)
+	if atomic.AddInt64(&c.n, 1) > 1 && c.offline {
+		return fmt.Errorf("peer %s is not connected", peerId)
+	}
 	return nil
 }
 func (c *c22Counter) get() int64 { return atomic.LoadInt64(&c.n) }
@@ -86,7 +93,7 @@ func c22GenOps(r *Rng, directed int) []c22Op {
 	return ops
 }
 
-func c22RunMgr(ops []c22Op) c22MgrRes {
+func c22RunMgr(ops []c22Op, offline bool) c22MgrRes {
 	mgr := messages.NewManager()
 	res := c22MgrRes{ops: ops}
 	live := map[int]*c22Counter{}
@@ -99,7 +106,7 @@ func c22RunMgr(ops []c22Op) c22MgrRes {
 		id := fmt.Sprintf("swap%d", o.Id)
 		switch o.Kind {
 		case "add":
-			c := &c22Counter{}
+			c := &c22Counter{offline: offline}
 			rm := messages.NewRedundantMessenger(c, c22Tick)
 			err := mgr.AddSender(id, rm)
 			res.addOk = append(res.addOk, err == nil)
@@ -272,15 +279,18 @@ func init() {
 		r := NewRng(*seed)
 		if *fam == "mgr" {
 			cf := NewCaseFile("From PS Require Import Model.C22Corr.", "mgr_case", "mgr_check", "mgr_monitor")
-			results := make([]c22MgrRes, *n)
+			// every operation sequence runs twice: peer reachable / peer gone after the first copy
+			results := make([]c22MgrRes, 2**n)
 			var wg sync.WaitGroup
 			for i := 0; i < *n; i++ {
 				ops := c22GenOps(r, i)
-				wg.Add(1)
-				go func(i int, ops []c22Op) {
-					defer wg.Done()
-					results[i] = c22RunMgr(ops)
-				}(i, ops)
+				for off := 0; off < 2; off++ {
+					wg.Add(1)
+					go func(i int, ops []c22Op, offline bool) {
+						defer wg.Done()
+						results[i] = c22RunMgr(ops, offline)
+					}(2*i+off, ops, off == 1)
+				}
 			}
 			wg.Wait()
 			for i, res := range results {
@@ -303,8 +313,12 @@ func init() {
 					le = append(le, fmt.Sprintf("%d%%nat", l))
 				}
 				term := fmt.Sprintf("(%s, mkMgrObs %s %s %s)", CoqList(ops), CoqList(oks), CoqList(as), CoqList(le))
-				cf.Add(term, strings.Join(ops, ","), len(res.ops) > 1, fmt.Sprintf("ops=%d", len(res.ops)),
-					map[string]interface{}{"fam": "mgr", "case": i, "ops": kinds, "add_ok": res.addOk, "after_stop": res.afterStop, "live_end": res.liveEnd})
+				peer := "online"
+				if i%2 == 1 {
+					peer = "offline-after-first-copy"
+				}
+				cf.Add(term, strings.Join(ops, ",")+"|"+peer, len(res.ops) > 1, fmt.Sprintf("ops=%d/%s", len(res.ops), peer),
+					map[string]interface{}{"fam": "mgr", "case": i / 2, "peer": peer, "ops": kinds, "add_ok": res.addOk, "after_stop": res.afterStop, "live_end": res.liveEnd})
 			}
 			return cf.Write(*out, 64, map[string]interface{}{"seed": *seed, "tick_ms": c22Tick.Milliseconds()})
 		}
